@@ -50,10 +50,15 @@ func (c *Calcium) doReallocOnNode(ctx context.Context, node *types.Node, workloa
 			logger.Debugf(ctx, "realloc workload %+v, resource args %+v, engine args %+v", workload.ID, litter.Sdump(resources), litter.Sdump(engineParams))
 			workload.EngineParams = engineParams
 			workload.Resources = resources
-			return c.store.UpdateWorkload(ctx, workload)
+			return nil
 		},
-		// then: update virtualization
+		// then: update workload meta and virtualization
+		// (the meta update belongs here: rmgr.Realloc has already committed the usage delta,
+		// so a failure from now on must trigger the rollback below)
 		func(ctx context.Context) error {
+			if err := c.store.UpdateWorkload(ctx, workload); err != nil {
+				return err
+			}
 			return node.Engine.VirtualizationUpdateResource(ctx, opts.ID, engineParams)
 		},
 		// rollback: revert the resource changes and rollback workload meta
